@@ -205,6 +205,8 @@ mod metadata;
 mod reader;
 mod sorter;
 mod varint;
+#[cfg(grenad_verif)]
+pub mod verif;
 mod writer;
 
 pub use self::compression::CompressionType;
